@@ -21,7 +21,8 @@ EXPLANATION = (
     "the diagonal of a density matrix; QutipOperator.expect returns qutip.expect(op, state) whole (no real/imaginary/absolute part: operators need not be Hermitian). "
     "NOT decided: the numeric values of the observables (runtime)."
     ' Round 4 (added): a bra handed to QutipState is stored as its adjoint (.dag()); QutipState.overlap uses the squared modulus only under a test that both states are kets.'
-    ' Round 5 (added): the energy moments are expectation values ((H @ H).expect(state), H.expect(state)), defined for density matrices too.'
+    ' Round 5 (added): the energy moments are expectation values ((H @ H).expect(state), H.expect(state)), defined for density matrices too;'
+    " the stochastic branch of QutipBackendV2.run hands get_hamiltonian(..., noiseless=True) to the observables; in the configuration rebuilt around the emulated noise model the 'noise_model' key follows the ** spread of the user's options (later keys win)."
 )
 ASSUMPTIONS = ["the truth table is evaluated over the three atoms of the path condition of the storing call, read off the symbolic normal form (pstatic/sym.py)"]
 
@@ -169,6 +170,23 @@ def run(E: Engine, rep: Report, tier: str) -> dict:
         good = m is not None and m["Q_t"] == kw.get("t") and m["Q_res"] == kw.get("result") and res is not None and res[0] == "call" and dict(res[3]).get("total_duration") == sym.Pattern("self._sim_obj.total_duration_ns").term
         if not good:
             ok, why = False, sh(gh[0] if gh else h, 160)
+    # ... and it is H(t) of the SEQUENCE: in the stochastic branch the emulator's current Hamiltonian is the one of the last
+    #     random realisation, so the call asks for the noiseless one
+    noisy_conds = [set(sym.conj_of(l.cond)) for l in Sr.log if l.kind == "call" and l.target is not None and l.target[0] == "attr" and l.target[2] == "_noisy_runs"]
+    n_st = 0
+    for c in obs_calls:
+        if not any(nc <= set(sym.conj_of(c.cond)) for nc in noisy_conds):
+            continue
+        n_st += 1
+        h = dict(c.value[3]).get("hamiltonian")
+        gh = [x for x in sym.subterms(h) if x[0] == "call" and x[1][0] == "attr" and x[1][2] == "get_hamiltonian"] if h is not None else []
+        rep.check(bool(gh) and dict(gh[0][3]).get("noiseless") == ("const", True), "GUARD", "QutipBackendV2.run|stochastic-branch-hands-the-noiseless-hamiltonian", "get_hamiltonian(..., noiseless=True) in the multi-run branch",
+                  f"the stochastic branch hands `{sh(gh[0], 120) if gh else sh(h, 120)}` to the observables: without noiseless=True that is the Hamiltonian of the last random realisation (amplitude / detuning fluctuations, switched-off atoms), not H(t) of the sequence, so Energy / EnergyVariance depend on the random draw", E.where(run_, c.node))
+    if noisy_conds and n_st == 0:
+        raise AnalysisError("anchor: no observable call found in the branch of QutipBackendV2.run that calls _noisy_runs")
+    from .c11 import rebuilt_config_noise_model_wins
+
+    rebuilt_config_noise_model_wins(E, rep, "GUARD")
     rep.check(ok, "GUARD", "QutipBackendV2.run|hamiltonian-at-emulated-time", "H(t * res.total_duration) with res.total_duration = the emulator's total duration, in both branches",
               f"the Hamiltonian handed to the observables is evaluated at {why}: relative times must be scaled by the emulator's own total duration (which includes modulation fall time), identically in both branches", E.where(run_))
     # several basis states can read as the same bitstring (g and h both read 0 with three levels): probabilities accumulate
